@@ -1,11 +1,11 @@
 package main
 
 import (
-	"runtime"
-	"strings"
 	"fmt"
 	"reflect"
+	"runtime"
 	"sort"
+	"strings"
 	"sync"
 	"sync/atomic"
 	"time"
@@ -111,10 +111,10 @@ func c11(c *Ctx) {
 		}
 		ng := 2 + c.R.Intn(15)
 		type got struct {
-			spn    string
-			id     string
-			key    string
-			err    error
+			spn string
+			id  string
+			key string
+			err error
 		}
 		var mu sync.Mutex
 		var gots []got
